@@ -13,7 +13,8 @@ RULE = ("generated PyPI universes (5-10 packages, 1-5 versions incl. a/b/rc/dev/
         "operator and comma lists, markers over python_version/sys_platform/os_name/extra, extras requested by root "
         "and inner requirements, cycles through the root, conflict templates forcing backtracking, templates of the "
         "known defect shapes, requirements on a package the client does not know, extras names with case and "
-        "separator variants) x every version as root; a case is non-trivial when the graph has at least 3 nodes "
+        "separator variants, versions listing one package several times, pairs of requirements one of which names a "
+        "pre-release next to an exclusive comparison whose post- and pre-releases exist) x every version as root; a case is non-trivial when the graph has at least 3 nodes "
         "and a false marker was dropped, or the model backtracked, or the resolver asked for the requirements of a "
         "version that is not in the final graph (a rejected or abandoned candidate)")
 TRUSTED = [
@@ -21,8 +22,12 @@ TRUSTED = [
     "translator harness/go/cmd/gotables (maxRounds, attribute keys, VersionType numbers, delayed name regenerated each run)",
     "extraction (ExtrOcamlBasic only) + Extract/driver.ml; Go harness cmd/implrun (pypires.go: recording and table clients); "
     "python generator and direct oracle",
-    "pypi.VerifParseEvalMarker and semver.PyPI (ParseConstraint/HasPrerelease/MatchVersionPrerelease/Compare) as oracles: "
-    "marker and specifier semantics are properties C16 and C03",
+    "pypi.VerifParseEvalMarker and semver.PyPI (ParseConstraint/HasPrerelease/MatchVersionPrerelease/Compare) as oracles for "
+    "the model: marker and specifier semantics are properties C16 and C03; the direct oracle re-judges markers with its own "
+    "PEP 508 evaluation of the generated trees and every edge target and empty candidate list with an independent PEP 440 "
+    "specifier evaluation (harness/props/parts/pep440ref.py, transcribed from PEP 440 / packaging.specifiers), which abstains "
+    "outside its domain and on classes of the matcher (two clauses meeting at one version: F-C03-1a; !=V against post- and "
+    "pre-releases of V; arbitrary equality ===)",
 ]
 ASSUMPTIONS = [
     "model validated against the implementation by execution on generated universes (same recorded client table on both "
